@@ -2,7 +2,6 @@ package client
 
 import (
 	"context"
-	"errors"
 	"fmt"
 	"net"
 
@@ -86,7 +85,11 @@ func (l *listener) AcceptWithContext(ctx context.Context) (net.Conn, error) {
 			return nil, ctx.Err()
 		}
 
-		if errors.Is(err, yamux.ErrSessionShutdown) || errors.Is(err, net.ErrClosed) {
+		if l.closeCtx.Err() != nil {
+			// The listener was closed locally (Close or Shutdown). Otherwise
+			// the connection to the server was lost, including when the
+			// server closed it (which surfaces as a session shutdown or
+			// net.ErrClosed), so reconnect.
 			return nil, ErrClosed
 		}
 
